@@ -522,6 +522,123 @@ def r_regex_text_verbatim(ck: Checker, rule: str = "R-GRAM-EXH") -> None:
         ck.incomplete(rule, None, None, "no RegexMatcher(...) construction found in PatternDefInterpreter (1 confirmed by hand)")
 
 
+def r_capture_names_checked(ck: Checker, rule: str = "R-VAR-ORDER") -> None:
+    """A capture name is registered (and rejected when it was used before) by `_check_unique_and_get_capture`, and by nothing else.
+    Every `name=` an interpreter callback gives to a matcher (constructor or `replace`) must therefore be a value that call returned.
+    Positive pattern: a `name=` whose value is read off the parse tree (`….children[…]`, `str(…)` of a token) without passing the
+    check — `(A @x=[$a, * -> a])`-style duplicates and variables that precede such a capture are no longer definition errors."""
+    c = ck.repo.cls(PAT, "PatternDefInterpreter")
+    methods = {st.name: st for st in c.node.body if isinstance(st, ast.FunctionDef)}
+    CHECK = "_check_unique_and_get_capture"
+    if CHECK not in methods:
+        # the registering helper was renamed: find it by role (adds to the seen-set and raises the definition error)
+        cands = [m for m in methods.values() if any(isinstance(x, ast.Raise) for x in ast.walk(m))
+                 and any(isinstance(x, ast.Call) and isinstance(x.func, ast.Attribute) and x.func.attr == "add" and norm(x.func.value).startswith("self.") for x in ast.walk(m))
+                 and any(isinstance(x, ast.Return) and x.value is not None and not (isinstance(x.value, ast.Constant) and x.value.value is None) for x in ast.walk(m))]
+        if len(cands) != 1:
+            raise Unsupported("PatternDefInterpreter: the helper that registers a capture name and rejects a duplicate was not found", c.node)
+        CHECK = cands[0].name
+
+    def is_check_call(e: ast.AST) -> bool:
+        return isinstance(e, ast.Call) and isinstance(e.func, ast.Attribute) and e.func.attr == CHECK and norm(e.func.value) == "self"
+
+    def bindings(fn: ast.FunctionDef, name: str) -> list[ast.expr | None]:
+        out: list[ast.expr | None] = []
+        for a in ast.walk(fn):
+            if isinstance(a, ast.Assign) and any(isinstance(t, ast.Name) and t.id == name for t in a.targets):
+                out.append(a.value)
+            elif isinstance(a, ast.AnnAssign) and isinstance(a.target, ast.Name) and a.target.id == name and a.value is not None:
+                out.append(a.value)
+            elif isinstance(a, ast.NamedExpr) and a.target.id == name:
+                out.append(a.value)
+            elif isinstance(a, (ast.For, ast.comprehension)) and any(isinstance(t, ast.Name) and t.id == name for t in ast.walk(a.target)):
+                out.append(None)
+            elif isinstance(a, ast.Assign) and any(isinstance(t, (ast.Tuple, ast.List)) and any(isinstance(y, ast.Name) and y.id == name for y in ast.walk(t)) for t in a.targets):
+                out.append(None)
+            elif isinstance(a, ast.withitem) and a.optional_vars is not None and any(isinstance(y, ast.Name) and y.id == name for y in ast.walk(a.optional_vars)):
+                out.append(None)
+        return out
+
+    def reads_tree(e: ast.AST) -> bool:
+        return any((isinstance(y, ast.Attribute) and y.attr in ("children", "value", "data")) or (isinstance(y, ast.Subscript)) for y in ast.walk(e))
+
+    def verdict(e: ast.expr | None, fn: ast.FunctionDef, depth: int = 0) -> str:
+        """'ok' (a result of the check, or None), 'raw' (read off the parse tree), '?' (not recognised)"""
+        if e is None or depth > 6:
+            return "?"
+        if isinstance(e, ast.Constant) and e.value is None:
+            return "ok"
+        if is_check_call(e):
+            return "ok"
+        if isinstance(e, ast.NamedExpr):
+            return verdict(e.value, fn, depth + 1)
+        if isinstance(e, ast.IfExp):
+            vs = {verdict(e.body, fn, depth + 1), verdict(e.orelse, fn, depth + 1)}
+            return "raw" if "raw" in vs else ("?" if "?" in vs else "ok")
+        if isinstance(e, ast.BoolOp):
+            vs = {verdict(v, fn, depth + 1) for v in e.values}
+            return "raw" if "raw" in vs else ("?" if "?" in vs else "ok")
+        if isinstance(e, ast.Call) and isinstance(e.func, ast.Name) and e.func.id in ("cast", "str") and e.args:
+            return verdict(e.args[-1], fn, depth + 1)
+        if isinstance(e, ast.Call) and isinstance(e.func, ast.Attribute) and norm(e.func.value) == "self" and e.func.attr in methods and e.func.attr != CHECK:
+            h = methods[e.func.attr]
+            rets = [r.value for r in ast.walk(h) if isinstance(r, ast.Return)]
+            vs = {verdict(r, h, depth + 1) if r is not None else "ok" for r in rets} or {"?"}
+            return "raw" if "raw" in vs else ("?" if "?" in vs else "ok")
+        if isinstance(e, ast.Name):
+            params = {a.arg for a in fn.args.args + fn.args.kwonlyargs}
+            bs = bindings(fn, e.id)
+            if not bs:
+                if e.id in params:
+                    # a helper that receives the name: decided at its call sites
+                    sites = [x for m in methods.values() for x in ast.walk(m) if isinstance(x, ast.Call) and isinstance(x.func, ast.Attribute)
+                             and x.func.attr == fn.name and norm(x.func.value) == "self"]
+                    idx = [a.arg for a in fn.args.args if a.arg != "self"].index(e.id) if e.id in [a.arg for a in fn.args.args] else None
+                    vs = set()
+                    for s_ in sites:
+                        arg = next((k.value for k in s_.keywords if k.arg == e.id), None)
+                        if arg is None and idx is not None and idx < len(s_.args):
+                            arg = s_.args[idx]
+                        owner = next((m for m in methods.values() if any(y is s_ for y in ast.walk(m))), None)
+                        vs.add(verdict(arg, owner, depth + 1) if arg is not None and owner is not None else "?")
+                    if not vs:
+                        return "?"
+                    return "raw" if "raw" in vs else ("?" if "?" in vs else "ok")
+                return "?"
+            vs = {verdict(b, fn, depth + 1) for b in bs}
+            return "raw" if "raw" in vs else ("?" if "?" in vs else "ok")
+        if reads_tree(e) and not any(is_check_call(y) for y in ast.walk(e)):
+            return "raw"
+        return "?"
+
+    n = 0
+    for st in methods.values():
+        if st.name == CHECK:
+            continue
+        for x in ast.walk(st):
+            if not isinstance(x, ast.Call):
+                continue
+            callee = (dotted(x.func) or "").split(".")[-1]
+            if not (callee.endswith("Matcher") or callee == "replace"):
+                continue
+            for k in x.keywords:
+                if k.arg != "name":
+                    continue
+                n += 1
+                what = f"PatternDefInterpreter.{st.name}: the capture name given to {callee}(name=…) passed the duplicate check"
+                v = verdict(k.value, st)
+                if v == "ok":
+                    ck.holds(rule, (c.mod.rel, f"PatternDefInterpreter.{st.name}"), x, what)
+                elif v == "raw":
+                    ck.violation(rule, (c.mod.rel, f"PatternDefInterpreter.{st.name}"), x, what, positive=True,
+                                 construct=f"PatternDefInterpreter.{st.name}: {callee}(name={norm(k.value)[:40]}) takes the capture name from the parse tree without self.{CHECK} — "
+                                           "a name used twice, or a variable placed before this capture, is no longer a definition error")
+                else:
+                    raise Unsupported(f"PatternDefInterpreter.{st.name}: the origin of {callee}(name={norm(k.value)[:40]}) was not recognised", x)
+    if n < 3:
+        ck.incomplete(rule, None, None, f"only {n} `name=` arguments found in the pattern interpreter (3 confirmed by hand: field_spec 2, sequence 1)")
+
+
 def r_every_subtree_visited(ck: Checker, rule: str = "R-VAR-ORDER") -> None:
     """Compiling a sub-pattern is not a pure function of its parse tree: visiting it registers the capture names it contains, and that
     registration is what rejects a capture name used twice / a variable used before its capture.  Positive pattern: a callback of the
@@ -750,6 +867,7 @@ def run(ck: Checker) -> None:
     ck.guard("R-GRAM-EXH", lambda: r_gram_exh(ck))
     ck.guard("R-VAR-ORDER", lambda: r_var_order(ck))
     ck.guard("R-VAR-ORDER", lambda: r_every_subtree_visited(ck))
+    ck.guard("R-VAR-ORDER", lambda: r_capture_names_checked(ck))
     ck.guard("R-GRAM-EXH", lambda: r_regex_verbatim(ck))
     ck.guard("R-GRAM-EXH", lambda: r_regex_text_verbatim(ck))
     ck.guard("R-GRAM-EXH", lambda: r_all_names_resolved(ck))
